@@ -825,11 +825,15 @@ func (w *world) shard(id, size, lb int, nowUnix int64, q *queryCtx, fr *ring.Rin
 			w.prevLb[[3]int{id, size, lb}] = ls
 		}
 	}
-	must(w.rc.ti.Write(xs(map[string]any{"e": "S", "id": id, "size": size, "L": lb, "now": w.rc.rel(nowUnix), "hit": hit,
-		"self": self, "fself": fs == ring.ReadRing(fr), "lm": l.M, "fm": f.M}, l.X, f.X)))
+	ev := xs(map[string]any{"e": "S", "id": id, "size": size, "L": lb, "now": w.rc.rel(nowUnix), "hit": hit,
+		"self": self, "fself": fs == ring.ReadRing(fr), "lm": l.M, "fm": f.M}, l.X, f.X)
+	must(w.rc.ti.Write(ev))
 	w.rc.res.Cases++
 	if hit {
 		w.rc.hits++
+		if lb > 0 && w.shortcut() {
+			w.rc.res.Sample(map[string]any{"after_update": w.lastKind, "query": ev})
+		}
 	}
 	if hit || w.shortcut() {
 		w.rc.short++
